@@ -83,6 +83,22 @@ pub fn property() -> Property {
         max_len: 400,
         max_threads: 0,
       },
+      Scenario {
+        id: 3,
+        name: "well-formed but odd traffic against a reader with history (the C01 reader scripts: stale, reversed and far heartbeats, gaps, duplicates, regrouped fragments) - survival only",
+        quick: 6_000,
+        thorough: 1_000_000,
+        max_len: 700,
+        max_threads: 0,
+      },
+      Scenario {
+        id: 4,
+        name: "well-formed but odd ACKNACK / NACKFRAG traffic against a writer with history (the C04 writer scripts) - survival only",
+        quick: 600,
+        thorough: 60_000,
+        max_len: 700,
+        max_threads: 0,
+      },
     ],
     run,
     exhaustive: None,
@@ -1053,6 +1069,22 @@ pub fn run(scenario: u32, choices: &[u8], _strict: bool) -> Outcome {
     0 => scenario_structured(&mut c, &mut o),
     1 => scenario_raw(&mut c, &mut o),
     2 => scenario_discovery_bytes(&mut c, &mut o),
+    // A datagram need not be malformed to be dangerous: it can be wrong only relative to the
+    // state it meets. The stateful scripts of C01 / C04 are run for survival only: a panic, a
+    // hang (tick budget) or an abort is caught by the engine's monitors; what the models of
+    // those properties think of the outcome is not C06's business.
+    3 | 4 => {
+      let r = if scenario == 3 {
+        super::rscript::run(super::rscript::Focus::C01, choices, _strict)
+      } else {
+        super::wscript::run(super::wscript::Focus::C04, choices, _strict)
+      };
+      o.sample = r.sample;
+      o.digest = r.digest;
+      o.nontrivial = r.nontrivial;
+      o.labels = r.labels;
+      o.label(if scenario == 3 { "stateful-reader-script" } else { "stateful-writer-script" });
+    }
     _ => o.verdict = Verdict::Discard("unknown scenario".into()),
   }
   o
